@@ -123,7 +123,7 @@ func (w *world) onDecision(nd *node, in, dec *specqbft.SignedMessage) {
 		// locally reached: value must pass the operator's value check and have been proposed by the
 		// legitimate leader of its round
 		w.d.Probe("decision-local")
-		if valueCheck(dec.FullData) != nil {
+		if w.valueCheckOf(nd.idx)(dec.FullData) != nil {
 			w.d.Violate("local-decision-invalid-value", "value-check", "op%d decided locally on %s which fails its own value check", nd.id, valueName(w, dec.FullData))
 		}
 		leader := specqbft.RoundRobinProposer(&specqbft.State{Height: w.height, Share: nd.share}, dec.Message.Round)
